@@ -207,6 +207,9 @@ func (it *Interp) deepClone(v Value, seen map[*Cell]*Cell) Value {
 		}
 		return n
 	case *CoinsV:
+		if x.mat != nil {
+			return it.deepClone(x.mat, seen)
+		}
 		n := &CoinsV{Amt: map[string]Value{}}
 		for k, a := range x.Amt {
 			n.Amt[k] = a
